@@ -117,6 +117,18 @@ func gen(t *rapid.T) Case {
 		{Kind: "sleep", Thread: 0, Us: rapid.SampledFrom([]int{0, 50, 300, 1000, 3000}).Draw(t, "closeAfterUs")},
 		{Kind: "close", Thread: 0, Us: rapid.IntRange(1, 3).Draw(t, "closers")},
 	}
+	// servers that were down when the manager was built come up right after (or while) Close
+	// runs: a dial that is still under way, or is started late, now succeeds
+	if len(c.Down) > 0 && rapid.Bool().Draw(t, "lateUp") {
+		closer = append(closer, peng.Op{Kind: "sleep", Thread: 0, Us: rapid.SampledFrom([]int{0, 0, 100, 2000}).Draw(t, "lateUpUs")})
+		for _, s := range c.Down {
+			closer = append(closer, peng.Op{Kind: "start", Thread: 0, Call: scen.CallSpec{Node: s}})
+		}
+		if rapid.Bool().Draw(t, "lateUpBeforeClose") {
+			// ... or just before Close strikes
+			closer[1], closer[len(closer)-1] = closer[len(closer)-1], closer[1]
+		}
+	}
 	pos := rapid.IntRange(0, len(c.Ops)).Draw(t, "closePos")
 	ops := append([]peng.Op(nil), c.Ops[:pos]...)
 	ops = append(ops, closer...)
@@ -321,7 +333,7 @@ func run(c Case) vt.Verdict {
 func TestProp(t *testing.T) {
 	vt.Main(t, vt.Spec[Case]{
 		ID:           "C12",
-		Rule:         "crash-point generation: a manager with send buffer 0/1/4/16, with/without WithBlock, nodes down at creation, nodes whose handlers are held (with or without Release, so that requests are awaiting replies or stuck behind a non-reading server, optionally with a flood being written); 0-10 calls of all kinds with contexts that never end, issued by 1-4 threads before and concurrently with Close, some abandoned during their send (stream reset before Close), optionally a server crash and restart before Close, in half of the cases seeded jitter at the statement-level yield points of the instrumented runtime; Close struck after a generated delay from 1-3 goroutines; then 0-8 calls after Close returned and optionally Close again; plus WithNoConnect managers that are only created and closed. Oracle: Close returns and never panics, every call returns within the hang bound after Close although all handlers stay held, post-Close two-way calls do not succeed, no call panics, and within the bound no sender/receiver/watcher/async/correctable goroutine and no grpc client-transport goroutine created since the manager was built remains; non-trivial (measured) = Close struck with a call in flight or being issued, or send buffer > 0, or a node never connected",
+		Rule:         "crash-point generation: a manager with send buffer 0/1/4/16, with/without WithBlock, nodes down at creation, nodes whose handlers are held (with or without Release, so that requests are awaiting replies or stuck behind a non-reading server, optionally with a flood being written); 0-10 calls of all kinds with contexts that never end, issued by 1-4 threads before and concurrently with Close, some abandoned during their send (stream reset before Close), optionally a server crash and restart before Close, optionally the servers that were down at creation coming up just before or right after Close (a late dial succeeds), in half of the cases seeded jitter at the statement-level yield points of the instrumented runtime; Close struck after a generated delay from 1-3 goroutines; then 0-8 calls after Close returned and optionally Close again; plus WithNoConnect managers that are only created and closed. Oracle: Close returns and never panics, every call returns within the hang bound after Close although all handlers stay held, post-Close two-way calls do not succeed, no call panics, and within the bound no sender/receiver/watcher/async/correctable goroutine and no grpc client-transport goroutine created since the manager was built remains; non-trivial (measured) = Close struck with a call in flight or being issued, or send buffer > 0, or a node never connected",
 		Gen:          gen,
 		Run:          run,
 		TrackCurrent: true,
